@@ -289,7 +289,7 @@ package profile
 
 //@ func Profile.Prune
 //@   requires wfprofile(p) && dropRx != nil
-//@   requires forall a int, b int :: 0 <= a && a < b && b < len(p.Location) ==> p.Location[a] != p.Location[b]
+//@   requires distinct: forall a int, b int :: 0 <= a && a < b && b < len(p.Location) ==> p.Location[a] != p.Location[b]
 //@   ensures count: len(p.Sample) == old(len(p.Sample))
 //@   ensures nonempty: forall k int :: 0 <= k && k < len(p.Sample) && old(len(p.Sample[k].Location)) > 0 ==> len(p.Sample[k].Location) > 0
 //@   ensures shorter: forall k int :: 0 <= k && k < len(p.Sample) ==> len(p.Sample[k].Location) <= old(len(p.Sample[k].Location))
@@ -353,5 +353,6 @@ package profile
 
 //@ func Profile.RemoveUninteresting
 //@   requires wfprofile(p)
+//@   requires distinct: forall a int, b int :: 0 <= a && a < b && b < len(p.Location) ==> p.Location[a] != p.Location[b]
 //@   ensures untouched: old(p.DropFrames) == "" ==> result == nil
 //@   ensures count: len(p.Sample) == old(len(p.Sample))
